@@ -125,7 +125,13 @@ CLAIMED = {
              "distribution with the stated stage order (closed form per mode, binomial thinning, one dark count, "
              "threshold); every returned state is the accepted, herald-free form of a detected state satisfying "
              "post-selection and min_detection; sample_N_outputs returns exactly N samples from the exact conditional "
-             "distribution. Executable Lean model of the detector (tape version and exact kernel) and of the sampling pipelines "
+             "distribution. LIMIT STATEMENTS (proved): on the uniform grid the selection frequency is within 1/N of "
+             "p_k/sum (inverseCdf_grid_frequency, Tendsto form); for an i.i.d. uniform tape (pairwise independent, "
+             "each uniform on [0,1)) the selection frequencies of indices and of states converge almost surely to the "
+             "normalised weights (sampling_frequencies_converge, sampleOne_frequencies_converge: Mathlib's strong law "
+             "applied to the push-forward theorem inverseCdfR_uniform_measure), and the law of the detected state under "
+             "an i.i.d. uniform tape is exactly detectorKernel (detectorSampleR_law); the real-valued twins are proved "
+             "equal to the model on rational data. Executable Lean model of the detector (tape version and exact kernel) and of the sampling pipelines "
              "(sample_N_inputs, sample_N_outputs, sample) as functions of the random tape; the harness reproduces the "
              "uniform variates numpy / stdlib draw from the seed and demands sample-by-sample agreement with the model, "
              "checks every returned state against heralds / post-selection / min_detection / herald removal, exactly-N "
@@ -134,8 +140,9 @@ CLAIMED = {
         technique="Lean 4 model of the pipeline as a function of the random tape + exact tape-replay correspondence; "
                   "statistical validation labelled as such",
         note="PARTIAL: PRNG contracts (numpy Generator.choice = inverse CDF on Generator.random, stdlib random) are "
-             "trusted and self-tested each run; 'converges in the limit' is the law of large numbers applied to the "
-             "exact kernel and is not formalised. Known finding F13 (Sampler.sample ignores heralds).",
+             "trusted and self-tested each run (the limit theorems assume an ideal i.i.d. uniform tape; no law of "
+             "large numbers is proved for the rejection loop of sample_N_inputs as a whole, only for its selection "
+             "step and the detector law). Known finding F13 (Sampler.sample ignores heralds).",
         ref="§5 C07"),
     "C11": dict(
         text="Lean refinement theorem over the cache model: if the computed value factors through the configuration "
